@@ -422,18 +422,26 @@ impl<'a> Printer<'a> {
             Pat::Bool(b) => {
                 self.emit(&b.to_string());
             }
+            // (a number pattern takes its type from the matched value: in a third of the cases it is
+            // printed without suffix - both bounds of a range or none, mixed ranges are parse errors)
             Pat::Int(v) => {
-                self.emit(&ty.int().lit(*v));
+                let bare = self.force_suffix == 0 && self.choice(3) == 0;
+                self.emit(&if bare { v.to_string() } else { ty.int().lit(*v) });
             }
             Pat::Range(lo, hi, excl) => {
                 let t = ty.int();
-                self.emit(&t.lit(*lo));
+                // (without suffixes both bounds have to be tokens of the same kind: `-128..=127` mixes a
+                // signed and an unsigned number token and is a parse error)
+                let shown_hi = if *excl { *hi + 1 } else { *hi };
+                let bare = self.force_suffix == 0 && (*lo < 0) == (shown_hi < 0) && self.choice(3) == 0;
+                let lit = |v: i128| if bare { v.to_string() } else { t.lit(v) };
+                self.emit(&lit(*lo));
                 if *excl {
                     self.emit("..");
-                    self.emit(&t.lit(*hi + 1));
+                    self.emit(&lit(*hi + 1));
                 } else {
                     self.emit("..=");
-                    self.emit(&t.lit(*hi));
+                    self.emit(&lit(*hi));
                 }
             }
             Pat::Tuple(ps) => {
